@@ -367,6 +367,17 @@ func c07Fixed(c *ev.Ctx) {
 		{"string-iteration-restarts", `n = 0; foreach ch in "abc" { n = n + 1; if (n == 2) { return n; } } return n;`, []step{{nil, "INTEGER:2"}, {nil, "INTEGER:2"}}},
 		{"operands-left-by-an-abandoned-call-are-not-inherited", `function leave(a) { foreach e in [7, 8, 9] { if (e == 8) { return e; } } return 0; } function faulty(z) { x = [1, 2, 1 / z]; return x; } function boom() { y = [4, 5, panic("p")]; return y; } function probe(m) { return t(m); } if (Mode == 1) { return leave(1); } if (Mode == 2) { return faulty(0); } if (Mode == 3) { return boom(); } return probe(1);`,
 			[]step{{map[string]model.Value{"Mode": model.Int(0)}, "error"}, {map[string]model.Value{"Mode": model.Int(1)}, "INTEGER:8"}, {map[string]model.Value{"Mode": model.Int(0)}, "error"}, {map[string]model.Value{"Mode": model.Int(2)}, "error"}, {map[string]model.Value{"Mode": model.Int(0)}, "error"}, {map[string]model.Value{"Mode": model.Int(3)}, "error"}, {map[string]model.Value{"Mode": model.Int(0)}, "error"}, {map[string]model.Value{"Mode": model.Int(1)}, "INTEGER:8"}}},
+		{"a-failed-range-fails-again", `n = 0; foreach i in Lo..Hi { n = n + i; } return n;`,
+			[]step{{map[string]model.Value{"Lo": model.Int(1), "Hi": model.Int(3)}, "INTEGER:6"}, {map[string]model.Value{"Lo": model.Int(5), "Hi": model.Int(2)}, "error"}, {map[string]model.Value{"Lo": model.Int(5), "Hi": model.Int(2)}, "error"}, {map[string]model.Value{"Lo": model.Int(1), "Hi": model.Int(3)}, "INTEGER:6"}, {map[string]model.Value{"Lo": model.Int(5), "Hi": model.Int(2)}, "error"}, {map[string]model.Value{"Lo": model.Int(2), "Hi": model.Int(2)}, "INTEGER:2"}}},
+		{"every-failing-operation-fails-again", `if (Op == 1) { return len(A..B); } if (Op == 2) { return A / B; } if (Op == 3) { return A % B; } if (Op == 4) { return [1, 2][S]; } if (Op == 5) { return {"k": 1}[[A]]; } if (Op == 6) { return A ** S; } return len(1..3) + 8 / 2 + 7 % 4;`,
+			[]step{{map[string]model.Value{"Op": model.Int(0)}, "INTEGER:10"},
+				{map[string]model.Value{"Op": model.Int(1), "A": model.Int(9), "B": model.Int(1)}, "error"}, {map[string]model.Value{"Op": model.Int(1), "A": model.Int(9), "B": model.Int(1)}, "error"}, {map[string]model.Value{"Op": model.Int(1), "A": model.Int(1), "B": model.Int(9)}, "INTEGER:9"}, {map[string]model.Value{"Op": model.Int(1), "A": model.Int(9), "B": model.Int(1)}, "error"},
+				{map[string]model.Value{"Op": model.Int(2), "A": model.Int(8), "B": model.Int(0)}, "error"}, {map[string]model.Value{"Op": model.Int(2), "A": model.Int(8), "B": model.Int(0)}, "error"}, {map[string]model.Value{"Op": model.Int(2), "A": model.Int(8), "B": model.Int(2)}, "INTEGER:4"}, {map[string]model.Value{"Op": model.Int(2), "A": model.Int(8), "B": model.Int(0)}, "error"},
+				{map[string]model.Value{"Op": model.Int(3), "A": model.Int(8), "B": model.Int(0)}, "error"}, {map[string]model.Value{"Op": model.Int(3), "A": model.Int(8), "B": model.Int(0)}, "error"}, {map[string]model.Value{"Op": model.Int(3), "A": model.Int(8), "B": model.Int(3)}, "INTEGER:2"},
+				{map[string]model.Value{"Op": model.Int(4), "S": model.Str("x")}, "error"}, {map[string]model.Value{"Op": model.Int(4), "S": model.Str("x")}, "error"}, {map[string]model.Value{"Op": model.Int(4), "S": model.Int(1)}, "INTEGER:2"}, {map[string]model.Value{"Op": model.Int(4), "S": model.Str("x")}, "error"},
+				{map[string]model.Value{"Op": model.Int(5), "A": model.Int(1)}, "error"}, {map[string]model.Value{"Op": model.Int(5), "A": model.Int(1)}, "error"},
+				{map[string]model.Value{"Op": model.Int(6), "A": model.Int(2), "S": model.Str("x")}, "error"}, {map[string]model.Value{"Op": model.Int(6), "A": model.Int(2), "S": model.Int(3)}, "INTEGER:8"}, {map[string]model.Value{"Op": model.Int(6), "A": model.Int(2), "S": model.Str("x")}, "error"},
+				{map[string]model.Value{"Op": model.Int(0)}, "INTEGER:10"}}},
 		{"field-cache-is-per-run", `return Name;`, []step{{map[string]model.Value{"Name": model.Str("a")}, "STRING:a"}, {map[string]model.Value{"Name": model.Str("b")}, "STRING:b"}, {map[string]model.Value{}, "NULL:null"}}},
 	}
 	for _, tc := range cases {
